@@ -930,9 +930,11 @@ pub fn parent_main(prop: &dyn Prop, tier: Tier, seed: u64, workers_req: usize) -
     });
     let evdir = Path::new(&verif_root()).join("evidence");
     let _ = std::fs::create_dir_all(&evdir);
+    // partial runs (VERIF_ONLY=<variants>, a development aid) never overwrite the real evidence file
+    let evname = if std::env::var("VERIF_ONLY").is_ok() { format!("{}.only.json", id) } else { format!("{}.json", id) };
     let evtmp = evdir.join(format!("{}.json.tmp", id));
     std::fs::write(&evtmp, serde_json::to_vec_pretty(&evidence).unwrap()).unwrap();
-    std::fs::rename(&evtmp, evdir.join(format!("{}.json", id))).unwrap();
+    std::fs::rename(&evtmp, evdir.join(evname)).unwrap();
     let _ = std::fs::remove_dir_all(&run_dir);
 
     println!(
